@@ -16,7 +16,7 @@ from bctmc.tally import Tally
 
 PROPERTY = 'C02'
 RULE = ('randomised detectors: every labelled 4-node graph with positive weight (binary), every 3-node digraph, 4-node '
-        'signed patterns (also with self-connections of either sign), a few named 5-6 node graphs, int64 and int32 (weights 2^30) copies of a subset, directed signed 3-node networks over {-1,0,1,2} for the signed objectives of community_louvain; gamma in {1, 1.25} (subsets also with 0.5 and 3); probtune p in {0, 0.45, 1}; every built-in objective / qtype; initial '
+        'signed patterns (also with self-connections of either sign), a few named 5-6 node graphs, signed patterns with one sign class scaled by 1e-10, int64 and int32 (weights 2^30) copies of a subset, directed signed 3-node networks over {-1,0,1,2} for the signed objectives of community_louvain; gamma in {1, 1.25} (subsets also with 0.5 and 3); probtune p in {0, 0.45, 1}; every built-in objective / qtype; initial '
         'partition none or one of a fixed subset of the 15 set partitions (all 15 in thorough), subsets also with zero-based, gapped and larger-than-n labels and with every set partition under reversed / cyclically shifted labels; hierarchy in {False, True}; '
         'ALL visiting orders at every sweep; deterministic modularity_und/_dir/_und_sign: every graph n<=4 (5 thorough) / '
         'digraph n<=3 (4 thorough) x kci in {None, every set partition} x gamma, and the structured 7-10 node family of bctmc/named.py x 4 partitions; non-trivial = configuration with >= 2 '
@@ -172,6 +172,14 @@ def catalogue(thorough):
         for ci in ([0, 0, 1, 1], [7, 30, 7, 30])[:2] if len(W) == 4 else ([0, 0, 1], [7, 30, 7]):
             add('modularity_finetune_und_sign', tag, W, gamma=1, qtype='sta', ci=ci)
             add('modularity_probtune_und_sign', tag, W, gamma=1, qtype='sta', ci=ci, p=0.45)
+    # one sign class present but faint (total weight 1e-10): it still counts at full scale in 'sta' / 'smp' / 'pos'
+    for tag, W in (sg[::2] if not thorough else sg):
+        for fname, Wf in (('faintpos', np.where(W > 0, W * 1e-10, W)), ('faintneg', np.where(W < 0, W * 1e-10, W))):
+            for qt in ('sta', 'smp', 'pos'):
+                add('modularity_finetune_und_sign', tag + '_' + fname, Wf, gamma=1, qtype=qt, ci=None)
+                add('modularity_finetune_und_sign', tag + '_' + fname, Wf, gamma=1, qtype=qt, ci=[1, 1, 2, 2][:len(W)])
+                add('modularity_finetune_und_sign', tag + '_' + fname, Wf, gamma=1, qtype=qt, ci=[1, 2, 1, 2][:len(W)])
+                add('modularity_louvain_und_sign', tag + '_' + fname, Wf, gamma=1, qtype=qt)
     # integer element types; int32 with weights of 2^30 (any pooled pair of nodes passes 2^31)
     for tag, W in (und4[::13] if not thorough else und4[::5]):
         for dt, scale in (('int32', 2 ** 30), ('int64', 1)):
